@@ -48,6 +48,9 @@ enum Step {
     Exec2(i32),
     CExecPaged(usize, i32, Option<Box<Step>>),
     Batch(usize, i32),
+    /// a batch whose second statement is given as TEXT with values (the driver prepares it on the fly); the node forgets exactly
+    /// that statement between the PREPARE and the BATCH
+    BatchFly(usize, i32),
     Prepare,
 }
 
@@ -58,6 +61,8 @@ struct History {
     ext_json: Value,
     skip: bool,
     skip_json: Value,
+    /// the nodes ignore the skip-metadata flag: every page of rows carries its metadata
+    igs: bool,
     steps: Vec<(Value, Step)>,
 }
 
@@ -106,12 +111,13 @@ fn parse_history(v: &Value) -> Result<History, String> {
             (None, Some("exec2")) => Step::Exec2(pk(s)?),
             (None, Some("cexec_paged")) => Step::CExecPaged(node(s)?, pk(s)?, mid_of(s)?),
             (None, Some("batch")) => Step::Batch(node(s)?, pk(s)?),
+            (None, Some("batch_fly")) => Step::BatchFly(node(s)?, pk(s)?),
             (None, Some("prepare")) => Step::Prepare,
             _ => return Err(format!("unknown step {s}")),
         };
         steps.push((s.clone(), st));
     }
-    Ok(History { id: v["id"].clone(), ext, ext_json: v["ext"].clone(), skip, skip_json: v["skip"].clone(), steps })
+    Ok(History { id: v["id"].clone(), ext, ext_json: v["ext"].clone(), skip, skip_json: v["skip"].clone(), igs: v["igs"].as_u64() == Some(1), steps })
 }
 
 fn node_ip(i: usize) -> Ipv4Addr {
@@ -175,6 +181,9 @@ struct Model {
     other_frames: u64,
     /// armed by a paged step: event to apply right after the first page of rows has been served
     mid_event: Option<(Value, Step)>,
+    /// node that forgets INSERT2 when the next BATCH reaches it (once)
+    fly_evict: Option<usize>,
+    ignore_skip: bool,
     /// during a pair of simultaneous executions: node 1 answers EXECUTE this many ms late (so that its UNPREPARED arrives after
     /// the other execution has finished re-preparing on node 0)
     slow1_ms: u64,
@@ -268,7 +277,7 @@ impl Answer {
 
 impl Model {
     fn new(ext: [bool; NODES]) -> Model {
-        Model { ver: 1, extra: 0, bgen: 0, ext, prepared: [HashSet::new(), HashSet::new()], salt: [0; NODES], frames: vec![], other_frames: 0, mid_event: None, slow1_ms: 0 }
+        Model { ver: 1, extra: 0, bgen: 0, ext, prepared: [HashSet::new(), HashSet::new()], salt: [0; NODES], frames: vec![], other_frames: 0, mid_event: None, fly_evict: None, ignore_skip: false, slow1_ms: 0 }
     }
 
     fn apply_event(&mut self, st: &Step) {
@@ -357,7 +366,7 @@ impl Model {
         };
         let cur = mid(self.ver);
         let r_is_cur = req.result_metadata_id.as_deref() == Some(&cur[..]);
-        let s = req.skip_metadata;
+        let s = req.skip_metadata && !self.ignore_skip;
         let (name, no_metadata, new_id) = if self.ext[n] {
             if r_is_cur && s {
                 ("rows_nometa", true, None)
@@ -386,6 +395,11 @@ impl Model {
         let Some(b) = &req.batch else {
             return Answer::plain(invalid("BATCH without a parsed body".into()), "error");
         };
+        if self.fly_evict == Some(n) {
+            self.fly_evict = None;
+            let id = id_for(INSERT2, self.salt[n]);
+            self.prepared[n].remove(&id);
+        }
         for s in &b.statements {
             match s.prepared_id.as_deref() {
                 Some(id) if !self.prepared[n].contains(id) => return Answer::unprepared(id),
@@ -535,6 +549,7 @@ fn control_conns(log: &[Value]) -> HashSet<u64> {
 
 async fn run_history(h: &History) -> Value {
     let model = Arc::new(Mutex::new(Model::new(h.ext)));
+    model.lock().unwrap().ignore_skip = h.igs;
     let m2 = model.clone();
     let handler: crate::mock::Handler = Arc::new(move |req: &Request| -> Action { m2.lock().unwrap().handle(req) });
     // The port is reused from the previous history: retry binding for up to 3 s.
@@ -679,6 +694,19 @@ async fn run_with_mock(h: &History, mock: &MockCluster, model: &Arc<Mutex<Model>
                     Err(e) => err_json(&e),
                 }
             }
+            Step::BatchFly(n, k) => {
+                let mut b = Batch::default();
+                b.append_statement(prepared_insert.clone());
+                b.append_statement(scylla::statement::unprepared::Statement::new(INSERT2));
+                b.set_load_balancing_policy(Some(forced(*n)));
+                model.lock().unwrap().fly_evict = Some(*n);
+                let r = match session.batch(&b, ((*k,), (k.wrapping_add(1),))).await {
+                    Ok(_) => json!({"ok": 1}),
+                    Err(e) => err_json(&e),
+                };
+                model.lock().unwrap().fly_evict = None;
+                r
+            }
             Step::Prepare => match session.prepare(SELECT).await {
                 Ok(_) => json!({"ok": 1}),
                 Err(e) => err_json(&e),
@@ -691,7 +719,7 @@ async fn run_with_mock(h: &History, mock: &MockCluster, model: &Arc<Mutex<Model>
     if other > 0 && std::env::var("C14_VERBOSE").is_ok() {
         eprintln!("c14: history {}: {other} user frames with an opcode other than PREPARE/EXECUTE/BATCH (answered Void, not recorded)", h.id);
     }
-    json!({"id": h.id, "ext": h.ext_json, "skip": h.skip_json, "start_err": "", "setup": setup, "steps": steps_out})
+    json!({"id": h.id, "ext": h.ext_json, "skip": h.skip_json, "igs": h.igs as u8, "start_err": "", "setup": setup, "steps": steps_out})
 }
 
 fn collect_unpaged(res: Result<scylla::response::query_result::QueryResult, scylla::errors::ExecutionError>) -> Value {
